@@ -32,6 +32,11 @@ TREE_BASES = [
     ("rep", ("grp", ("alt", [("cat", [A, B]), A]), None), 1, 2, False, False),
     ("cat", [("atomic", ("alt", [A, ("cat", [A, B])])), C]),
     ("cat", [("look", "=", ("grp", PLUS(A), None)), ("bref", 1), B]),
+    # an EASY alternation in the middle of a hard concat whose arm must backtrack internally
+    # (a greedy repeat that gives back, a nested alternation whose first choice is wrong)
+    ("cat", [("ncg", ("alt", [STAR(A), B])), A]),
+    ("cat", [("ncg", ("alt", [("cat", [L("x"), ("grp", ("alt", [A, ("cat", [A, B])]), None)]), L("y")])), C]),
+    ("cat", [("ncg", ("alt", [("rep", A, 0, 1, True, False), B])), A, B]),
 ]
 
 
@@ -74,7 +79,7 @@ def run(tier, seed, replay=None):
     pats = sorted(set([p for p, _ in pairs] + [q for _, q in pairs]))
     infos = engine.prog_info(pats)
     byp = {i["pattern"]: i for i in infos}
-    texts = gen.texts(2) + ["aab", "abab", "abc", "abcd", "abcdd", "aaa", "ab", "bab", "éa-", "cab", "aaab", "aaaab", "abbc", "b", "bc", "Éx", "É", "éÉ", "ÉÉx", "a\nb", "c\n", "a\n"]
+    texts = gen.texts(2) + ["aab", "abab", "abc", "abcd", "abcdd", "aaa", "ab", "bab", "éa-", "cab", "aaab", "aaaab", "abbc", "b", "bc", "xabc", "xac", "yc", "Éx", "É", "éÉ", "ÉÉx", "a\nb", "c\n", "a\n"]
     if tier == "thorough":
         texts = gen.texts(3) + texts
     t2bad = [i for i in infos if i["t2_ok"] is False]
